@@ -27,12 +27,16 @@ def plan(prop, tier):
         p = [(2, False, 18, 6)]
         if prop in ('C01', 'C07', 'C11'):
             p.append((2, True, 20, 6))
+        if prop == 'C06':
+            p = [(2, True, 20, 6)]
         return p
     p = [(2, False, 18, 6), (3, False, 28, 8)]
     if prop in ('C01', 'C07', 'C11'):
         p += [(2, True, 22, 6), (3, True, 30, 8)]
     if prop == 'C10':
         p += [(2, True, 24, 6)]
+    if prop == 'C06':
+        p = [(2, True, 26, 6), (3, True, 34, 8)]
     return p
 
 
@@ -54,7 +58,8 @@ def run(prop, tier, seed, repo, jobs):
                 # quick tier, watch mode: the restart obligations (single instance across restarts) take minutes per case and stay in the
                 # thorough tier; what is decided here is that a rebuild never starts while a service it depends on is down
                 only = ('dependency_services_are_running_when_a_build_starts',)
-            cases.append((prop, kinds, watch, K, qcap, seed, True, 300 if tier == 'quick' else (600 if n >= 3 else 1200), repo, tier, None if tier == 'quick' else (900 if n >= 3 else 2400), None, only))
+            emax = 1 if (prop == 'C06' and (tier == 'quick' or n >= 3)) else 2     # bound E on file-change notifications per run
+            cases.append((prop, kinds, watch, K, qcap, seed, True, 300 if tier == 'quick' else (600 if n >= 3 else 1200), repo, tier, None if tier == 'quick' else (900 if n >= 3 else 2400), None, only, emax))
     if prop in ('C11', 'C20'):
         # one fixed three-target graph: an aggregate (the only root) over a build and a service -- the smallest graph in which
         # the two kinds of acknowledgement of one target travel separately
